@@ -32,9 +32,10 @@ import (
 )
 
 type smReq struct {
-	URL   string            `json:"url"`
-	AdvMs int64             `json:"adv_ms"`
-	Hdr   map[string]string `json:"hdr"`
+	URL     string            `json:"url"`
+	AdvMs   int64             `json:"adv_ms"`
+	Hdr     map[string]string `json:"hdr"`
+	StartMs int               `json:"start_ms"` // conc: when the request is sent, relative to the start of the batch
 }
 
 type smCase struct {
@@ -62,11 +63,33 @@ var (
 	originSrv  *httptest.Server
 	originHits atomic.Int64
 	deadPort   string
+
+	originMu    sync.Mutex
+	originByURL = map[string]int{} // origin fetches per request URI since the last originReset()
 )
+
+func originReset() {
+	originMu.Lock()
+	originByURL = map[string]int{}
+	originMu.Unlock()
+}
+
+func originCounts() map[string]int {
+	originMu.Lock()
+	defer originMu.Unlock()
+	out := map[string]int{}
+	for k, v := range originByURL {
+		out[k] = v
+	}
+	return out
+}
 
 // the origin: status and caching headers are chosen by the query string of the request
 func originHandler(w http.ResponseWriter, r *http.Request) {
 	originHits.Add(1)
+	originMu.Lock()
+	originByURL[r.URL.RequestURI()]++
+	originMu.Unlock()
 	q := r.URL.Query()
 	if v := q.Get("cc"); v != "" {
 		w.Header().Set("Cache-Control", v)
